@@ -1,2 +1,177 @@
--- driver stub (replaced when the model for C04 is built)
-def main : IO Unit := pure ()
+/-
+  Driver for C04: one geometry per request line.
+
+  request   fromgeo <conv> <atm> <atmvol> <atmconn> <order> <gdcx|-> <gdcy|-> <rotc> <rots>
+                    <nlayers> {<name> <bottom> <centre> <top>}*          (layerlist, first = atmosphere layer)
+                    <ncols>   {<name> <nnodes> {<x> <y>}* <cx> <cy> <surface>}*
+                    <nconns>  {<i> <j> <x0> <y0> <x1> <y1>}*             (column indices, node positions)
+                    <nnames>  {<name>}*                                  (cached block_name_list)
+                    <nmap>    {<key> <value>}*                           (blockmap)
+  names are `x` + hex; rationals `num/den` or integers.
+
+  reply     ok <fresh 0|1> T <tx> <ty> <tz>
+               NL <ok n {name}* | exc E>       (setup_block_name_index recomputed)
+               CL <ok n {name name}* | exc E>  (setup_block_connection_name_index)
+               G <ok B n {name vol|- cx cy cz|- atm}* K n {b0 b1 dirn d0c d0r d1c d1r ac ar cc cr}* | exc E>
+            | irrational-tilt | bad <msg>
+-/
+import PyTough.Model.FromGeo
+import PyTough.Py.Proto
+open Py Model.FromGeo
+
+namespace DrvC04
+
+abbrev P := StateT (List String) (Except String)
+
+def tok : P String := do
+  match (← get) with
+  | [] => throw "eof"
+  | t :: r => set r; pure t
+
+def pNat : P Nat := do
+  let t ← tok
+  match t.toNat? with
+  | some n => pure n
+  | none => throw s!"nat {t}"
+
+def parseRat (t : String) : Option Rat :=
+  match t.splitOn "/" with
+  | [a] => a.toInt?.map (fun (i : Int) => (i : Rat))
+  | [a, b] => match a.toInt?, b.toNat? with
+    | some i, some d => if d = 0 then none else some (mkRat i d)
+    | _, _ => none
+  | _ => none
+
+def pRat : P Rat := do
+  let t ← tok
+  match parseRat t with
+  | some q => pure q
+  | none => throw s!"rat {t}"
+
+def pOptRat : P (Option Rat) := do
+  let t ← tok
+  if t = "-" then pure none else
+  match parseRat t with
+  | some q => pure (some q)
+  | none => throw s!"rat {t}"
+
+def pName : P Str := do
+  let t ← tok
+  match t.toList with
+  | 'x' :: h => pure (ofHex (String.ofList h))
+  | _ => throw s!"name {t}"
+
+def pMany {α} (p : P α) : Nat → P (List α)
+  | 0 => pure []
+  | n + 1 => do
+    let a ← p
+    let r ← pMany p n
+    pure (a :: r)
+
+def pP2 : P P2 := do
+  let x ← pRat
+  let y ← pRat
+  pure ⟨x, y⟩
+
+def pLayer : P Layer := do
+  let n ← pName
+  let b ← pRat
+  let c ← pRat
+  let t ← pRat
+  pure ⟨n, b, c, t⟩
+
+def pColumn : P Column := do
+  let n ← pName
+  let k ← pNat
+  let nodes ← pMany pP2 k
+  let c ← pP2
+  let s ← pRat
+  pure (mkColumn n nodes c s)
+
+def pConn (cols : Array Column) : P Conn := do
+  let i ← pNat
+  let j ← pNat
+  let a ← pP2
+  let b ← pP2
+  match cols[i]?, cols[j]? with
+  | some ci, some cj => pure ⟨ci, cj, a, b⟩
+  | _, _ => throw "conn index"
+
+def pPair : P (Str × Str) := do
+  let a ← pName
+  let b ← pName
+  pure (a, b)
+
+structure Req where
+  geo : Geo
+  map : BlockMap
+  tiltOk : Bool
+
+def pReq : P Req := do
+  let conv ← pNat
+  let atm ← pNat
+  let av ← pRat
+  let ac ← pRat
+  let order ← pNat
+  let gx ← pOptRat
+  let gy ← pOptRat
+  let rot ← pP2
+  let nl ← pNat
+  let layers ← pMany pLayer nl
+  let nc ← pNat
+  let cols ← pMany pColumn nc
+  let nk ← pNat
+  let conns ← pMany (pConn cols.toArray) nk
+  let nn ← pNat
+  let names ← pMany pName nn
+  let nm ← pNat
+  let m ← pMany pPair nm
+  match layers with
+  | [] => throw "no layers"
+  | l0 :: ls =>
+    let (tilt, ok) := match tiltVector? gx gy with
+      | some t => (t, true)
+      | none => (⟨0, 0, -1⟩, false)
+    pure ⟨⟨conv, atm, av, ac, order, l0, ls, cols, conns, tilt, rot, names⟩, m, ok⟩
+
+def showRat (q : Rat) : String := if q.den = 1 then s!"{q.num}" else s!"{q.num}/{q.den}"
+def showName (s : Str) : String := "x" ++ toHex s
+def showSurd (s : Surd) : String := showRat s.coef ++ " " ++ showRat s.rad
+
+def showBlock (b : Block) : String :=
+  showName b.name ++ " " ++ (match b.volume with | some v => showRat v | none => "-") ++ " " ++
+  (match b.centre with | some c => s!"{showRat c.x} {showRat c.y} {showRat c.z}" | none => "-") ++ " " ++
+  (if b.atm then "1" else "0")
+
+def showConn (c : TConn) : String :=
+  s!"{showName c.b0} {showName c.b1} {c.dirn} {showSurd c.d0} {showSurd c.d1} {showSurd c.area} {showSurd c.dircos}"
+
+def showEx {α} (f : α → String) : Except Exc α → String
+  | .ok v => "ok " ++ f v
+  | .error e => "exc " ++ e.toString
+
+def showGrid (t : Grid) : String :=
+  s!"B {t.blocks.length} " ++ " ".intercalate (t.blocks.map showBlock) ++
+  s!" K {t.conns.length} " ++ " ".intercalate (t.conns.map showConn)
+
+def handleFromgeo (r : Req) : String :=
+  if !r.tiltOk then "irrational-tilt" else
+  let g := r.geo
+  let fresh := if decide (Fresh g) then "1" else "0"
+  s!"ok {fresh} T {showRat g.tilt.x} {showRat g.tilt.y} {showRat g.tilt.z} NL " ++
+    showEx (fun (l : List Str) => s!"{l.length} " ++ " ".intercalate (l.map showName)) (blockNameList g) ++ " CL " ++
+    showEx (fun (l : List (Str × Str)) => s!"{l.length} " ++ " ".intercalate (l.map fun p => showName p.1 ++ " " ++ showName p.2))
+      (blockConnectionNameList g) ++ " G " ++
+    showEx showGrid (fromgeo g r.map)
+
+def handle : List String → String
+  | "fromgeo" :: rest =>
+    match (pReq.run rest) with
+    | .ok (r, []) => handleFromgeo r
+    | .ok (_, _) => "bad trailing"
+    | .error e => "bad " ++ e
+  | _ => "bad-op"
+
+end DrvC04
+
+def main : IO Unit := serve DrvC04.handle
